@@ -83,11 +83,18 @@ func (mgr *GCMgr) UpdateCollision(bkt *Bucket, ki *KeyInfo, oldPos, newPos Posit
 }
 
 func (mgr *GCMgr) UpdateHtreePos(bkt *Bucket, ki *KeyInfo, oldPos, newPos Position) {
-	// TODO: should be a api of htree to be atomic
-	meta, _, ok := bkt.htree.get(ki)
+	// serialized with client writes (checkAndSet holds writeLock); repoint only if the slot
+	// still points at the record that was relocated
+	bkt.writeLock.Lock()
+	defer bkt.writeLock.Unlock()
+	meta, pos, ok := bkt.htree.get(ki)
 	if !ok {
 		logger.Warnf("old key removed when updating pos bucket %d %s %#v %#v",
 			bkt.ID, ki.StringKey, meta, oldPos)
+		return
+	}
+	if pos != oldPos {
+		logger.Infof("key written during gc, keep its slot: bucket %d %s", bkt.ID, ki.StringKey)
 		return
 	}
 	verifPoint("gc.repoint.mid")
